@@ -54,6 +54,7 @@ def step (op impl : String) : String × Verdict :=
   let toks := op.splitOn " "
   match toks.head? with
   | some "reset" => ("ok", .unknown)
+  | some "block" => (if impl.startsWith "ok " || impl.startsWith "err " then impl else "ok <seq>", .unknown)
   | some "http" =>
     if impl.startsWith "ok " then (impl, .hold) else ("well-formed-response", .fail)
   | some "verify" =>
